@@ -80,6 +80,8 @@ def populate_script(hf, r, fill_bytes, nfiles=40, xattrs=True, special=True, spa
         cmds += late
         cmds += ["rm filler/x%04d" % i for i in range(filler)]
         cmds.append("rmdir filler")
+    # files and a directory that are gone again: released inode slots that are not all zeroes
+    cmds += ["write %s d1/gone1" % hf["small"], "write %s d1/gone2" % hf["tiny"], "mkdir d1/gonedir", "rm d1/gone1", "rm d1/gone2", "rmdir d1/gonedir"]
     cmds += ["set_inode_field d1/plain mode 0104755", "set_inode_field d1/sub/deep uid 1234", "set_inode_field d1/sub/deep gid 4321"]
     return cmds
 
